@@ -1,28 +1,14 @@
-(* FactsOK_C13.v — the structural facts re-extracted from /repo on every run (Facts.v) satisfy what the
-   model of C13 assumes: the four pipelines run in the modelled order (begin_transaction first,
-   before-hooks / statement / after-hooks, commit_or_rollback last, the two transaction callbacks and
-   only they under Match(enableTransaction)), and every hook callback tries the hook interfaces in the
-   modelled order. *)
+(* FactsOK_C13.v — what the RUNNING gorm of the tree under check does (Facts.v: traced runs of one
+   Create / Updates / First / Delete on SQLite, see harness/facts/c13.go) is what the model of C13
+   assumes: each pipeline executes its callbacks in the modelled order, each hook callback tries the
+   hooks in the modelled order, BEGIN precedes and COMMIT follows everything under the default
+   transaction, and with SkipDefaultTransaction the two transaction callbacks (and only they) are absent;
+   no callback the model does not know is registered (when the registered names can be reflected). *)
 From Verif Require Import Base C13_Model.
 From Gen Require Import Facts.
 Open Scope string_scope.
 
-Definition expect (tx_bracket : bool) (p : list cb) : list (string * string * bool) :=
-  map (fun x => (cb_name x, cb_func x,
-                 match x with CbBeginTx | CbCommitOrRollback => true | _ => false end)) p.
-
 Definition str_eqb (a b : string) : bool := if string_dec a b then true else false.
-Definition reg_eqb (a b : string * string * bool) : bool :=
-  str_eqb (fst (fst a)) (fst (fst b)) && str_eqb (snd (fst a)) (snd (fst b)) && Bool.eqb (snd a) (snd b).
-
-Lemma create_order_ok : list_eqb reg_eqb c13_create_order (expect true create_pipeline) = true.
-Proof. vm_compute. reflexivity. Qed.
-Lemma update_order_ok : list_eqb reg_eqb c13_update_order (expect true update_pipeline) = true.
-Proof. vm_compute. reflexivity. Qed.
-Lemma delete_order_ok : list_eqb reg_eqb c13_delete_order (expect true delete_pipeline) = true.
-Proof. vm_compute. reflexivity. Qed.
-Lemma query_order_ok : list_eqb reg_eqb c13_query_order (expect false query_pipeline) = true.
-Proof. vm_compute. reflexivity. Qed.
 
 Definition hook_name (h : hook) : string :=
   match h with
@@ -31,15 +17,50 @@ Definition hook_name (h : hook) : string :=
   | BeforeDelete => "BeforeDelete" | AfterDelete => "AfterDelete" | AfterFind => "AfterFind"
   end.
 
-Lemma tries_ok :
-  list_eqb str_eqb c13_tries_BeforeCreate (map hook_name (fc_hooks PBeforeCreate))
-  && list_eqb str_eqb c13_tries_AfterCreate (map hook_name (fc_hooks PAfterCreate))
-  && list_eqb str_eqb c13_tries_BeforeUpdate (map hook_name (fc_hooks PBeforeUpdate))
-  && list_eqb str_eqb c13_tries_AfterUpdate (map hook_name (fc_hooks PAfterUpdate))
-  && list_eqb str_eqb c13_tries_BeforeDelete (map hook_name (fc_hooks PBeforeDelete))
-  && list_eqb str_eqb c13_tries_AfterDelete (map hook_name (fc_hooks PAfterDelete))
-  && list_eqb str_eqb c13_tries_AfterQuery (map hook_name (fc_hooks PAfterFind)) = true.
+Definition hooks_run (x : cb) : list string :=
+  map hook_name
+    match x with
+    | CbBeforeCreate => fc_hooks PBeforeCreate | CbAfterCreate => fc_hooks PAfterCreate
+    | CbBeforeUpdate => fc_hooks PBeforeUpdate | CbAfterUpdate => fc_hooks PAfterUpdate
+    | CbBeforeDelete => fc_hooks PBeforeDelete | CbAfterDelete => fc_hooks PAfterDelete
+    | CbAfterQuery => fc_hooks PAfterFind
+    | _ => []
+    end.
+
+Definition expect_run (tx : bool) (p : list cb) : list string :=
+  flat_map (fun x => match x with
+                     | CbBeginTx => if tx then ["begin"] else []
+                     | CbCommitOrRollback => if tx then ["commit"] else []
+                     | _ => cb_name x :: hooks_run x
+                     end) p.
+
+Definition run_ok (observed : list string) (tx : bool) (p : list cb) : bool :=
+  list_eqb str_eqb observed (expect_run tx p).
+
+Lemma create_runs_as_modelled :
+  run_ok c13_run_create_default true create_pipeline && run_ok c13_run_create_skipdef false create_pipeline = true.
+Proof. vm_compute. reflexivity. Qed.
+Lemma update_runs_as_modelled :
+  run_ok c13_run_update_default true update_pipeline && run_ok c13_run_update_skipdef false update_pipeline = true.
+Proof. vm_compute. reflexivity. Qed.
+Lemma delete_runs_as_modelled :
+  run_ok c13_run_delete_default true delete_pipeline && run_ok c13_run_delete_skipdef false delete_pipeline = true.
+Proof. vm_compute. reflexivity. Qed.
+Lemma query_runs_as_modelled :
+  run_ok c13_run_query_default false query_pipeline && run_ok c13_run_query_skipdef false query_pipeline = true.
 Proof. vm_compute. reflexivity. Qed.
 
-Lemma no_unknown_registration_form : c13_unknown = [].
+(* registered names = the model's callbacks, as sets *)
+Definition subset (a b : list string) : bool := forallb (fun x => existsb (str_eqb x) b) a.
+Definition names_ok (observed : list string) (p : list cb) : bool :=
+  let m := map cb_name p in
+  subset observed m && subset m observed && Nat.eqb (length observed) (length m).
+
+Lemma no_unmodelled_callback :
+  negb c13_names_reflected
+  || (names_ok c13_names_create create_pipeline && names_ok c13_names_update update_pipeline
+      && names_ok c13_names_delete delete_pipeline && names_ok c13_names_query query_pipeline) = true.
+Proof. vm_compute. reflexivity. Qed.
+
+Lemma probes_ran : c13_unknown = [].
 Proof. vm_compute. reflexivity. Qed.
